@@ -594,18 +594,21 @@ Fixpoint dedup_Z (seen : list Z) (l : list Z) : list Z :=
   | x :: r => if existsb (Z.eqb x) seen then dedup_Z seen r else x :: dedup_Z (x :: seen) r
   end.
 
+(* the str pre-processing of ReferenceList.do_convert; every exception is swallowed *)
+Definition reflist_pre (v0 : value) : value :=
+  match v0 with
+  | PStr _ s =>
+      if starts_with (Str "[") s then
+        match o_json_loads orc s with
+        | Some (PList k l) => if forallb is_pos_int l then PList k l else v0
+        | _ => v0
+        end
+      else match reclist_from_repr s with Ok rl => rl | Raise _ => v0 end
+  | _ => v0
+  end.
+
 Definition reflist_do_convert (t : str) (v0 : value) : result value :=
-  (* the str pre-processing; every exception is swallowed *)
-  let v := match v0 with
-           | PStr _ s =>
-               if starts_with (Str "[") s then
-                 match o_json_loads orc s with
-                 | Some (PList k l) => if forallb is_pos_int l then PList k l else v0
-                 | _ => v0
-                 end
-               else match reclist_from_repr s with Ok rl => rl | Raise _ => v0 end
-           | _ => v0
-           end in
+  let v := reflist_pre v0 in
   match v with
   | PRecordSet t' _ rows info =>
       if str_eqb t' t then Ok (PList (LRecordList info) (map (PInt false) rows)) else Raise E_Assertion
